@@ -247,7 +247,7 @@ func TestC15(t *testing.T) {
 	if evThorough() {
 		maxActions = 60
 	}
-	check(rec, "list-random", scale(6000, 120000), func(rt *rapid.T) {
+	check(rec, "list-random", scale(6000, 1200000), func(rt *rapid.T) {
 		c, labels, steps := genC15(rt, maxActions)
 		var ls []string
 		for l := range labels {
